@@ -220,6 +220,8 @@ type Universe struct {
 	epochs    map[int]epochRel
 	accessed  map[string]bool
 	epochAlloc map[int]string // allocation counter at the creation of an epoch
+	mapValType map[string]types.Type // MV_ component -> Go type of the map values
+	sortTypes  map[string]types.Type // struct sort -> a Go type with that sort (for values read out of raw SMT arrays)
 }
 
 // epochRel: how the components of an epoch relate to those of its parent epoch (nothing known when regions is nil)
@@ -313,7 +315,8 @@ func registerStructs(pkg *types.Package) {
 
 func structName(t types.Type) string {
 	if n, ok := t.(*types.Named); ok {
-		if n.Obj().Pkg() != nil && n.Obj().Parent() != n.Obj().Pkg().Scope() {
+		if n.Obj().Pkg() != nil {
+			// `type A B` (package-level or function-local) shares B's underlying struct: same sort, field addresses, partitions
 			if st, ok := n.Underlying().(*types.Struct); ok {
 				if c, ok := structCanon[st]; ok {
 					return c
@@ -340,7 +343,14 @@ func (u *Universe) sortOf(t types.Type) string {
 	switch tt := t.(type) {
 	case *types.Named:
 		if st, ok := tt.Underlying().(*types.Struct); ok {
-			return u.structSort(structName(tt), st)
+			sn := u.structSort(structName(tt), st)
+			if u.sortTypes == nil {
+				u.sortTypes = map[string]types.Type{}
+			}
+			if _, ok := u.sortTypes[sn]; !ok {
+				u.sortTypes[sn] = tt
+			}
+			return sn
 		}
 		return u.sortOf(tt.Underlying())
 	case *types.Alias:
@@ -648,6 +658,11 @@ func (u *Universe) declCompConst(name string, e int) string {
 		parent := u.declCompConst(name, rel.parent)
 		u.decls = append(u.decls, fmt.Sprintf("(assert (= %s %s))", cn, parent))
 	}
+	if strings.HasPrefix(name, "MV_") && e > 0 {
+		if f := u.mapValWF(name, cn); f != "" {
+			u.decls = append(u.decls, "(assert "+f+")")
+		}
+	}
 	if strings.HasPrefix(name, "MD_") {
 		// the nil map has an empty domain in every state
 		ks := u.compSort[name][len("(Array Int ") : len(u.compSort[name])-1]
@@ -686,9 +701,50 @@ func (u *Universe) mapComps(m *types.Map) (dom, val string, ks, vs string) {
 		u.compSort[val] = fmt.Sprintf("(Array Int (Array %s %s))", ks, vs)
 		u.comps = append(u.comps, val)
 		u.declConst(val+"_0", u.compSort[val])
+		if u.mapValType == nil {
+			u.mapValType = map[string]types.Type{}
+		}
+		u.mapValType[val] = m.Elem()
+		if f := u.mapValWF(val, val+"_0"); f != "" {
+			u.decls = append(u.decls, "(assert "+f+")")
+		}
 	}
 	u.mapLen(m)
 	return
+}
+
+// wfValue: representation facts of a value of type t that hold in every Go state (slices have 0 <= len <= cap)
+func (u *Universe) wfValue(v *Val, t types.Type, depth int) string {
+	switch tt := t.Underlying().(type) {
+	case *types.Slice:
+		return fmt.Sprintf("(and (>= %s 0) (>= %s 0) (>= %s %s) (>= %s 0) (=> (= %s 0) (= %s 0)))", slPart(v, 1), slPart(v, 2), slPart(v, 3), slPart(v, 2), slPart(v, 0), slPart(v, 0), slPart(v, 3))
+	case *types.Struct:
+		if depth > 2 {
+			return "true"
+		}
+		var cs []string
+		sv := &Val{e: v.E(), Sort: v.Sort, T: t}
+		for i := 0; i < tt.NumFields(); i++ {
+			cs = append(cs, u.wfValue(u.fieldOf(sv, i), tt.Field(i).Type(), depth+1))
+		}
+		return and(cs...)
+	}
+	return "true"
+}
+
+// mapValWF: the values stored in maps of this value type are well formed (constant cn of component comp)
+func (u *Universe) mapValWF(comp, cn string) string {
+	t, ok := u.mapValType[comp]
+	if !ok {
+		return ""
+	}
+	vs := u.sortOf(t)
+	ks := u.compSort[comp][len("(Array Int (Array ") : strings.Index(u.compSort[comp][len("(Array Int (Array "):], " ")+len("(Array Int (Array ")]
+	f := u.wfValue(mkVal("(select (select "+cn+" m) k)", vs, t), t, 0)
+	if f == "true" {
+		return ""
+	}
+	return fmt.Sprintf("(forall ((m Int) (k %s)) (! %s :pattern ((select (select %s m) k))))", ks, f, cn)
 }
 
 // mapLen: the component holding len(m) for maps of this type (one partition per map type, like MD_/MV_)
